@@ -211,16 +211,17 @@ theorem jsonschema_sites_sorted :
 /-- *Table*: `_sort_by_tags_and_names_in_place` is the loop structure `classify`/`xsdChildren`
 model: the `if/elif` chain over the four tags with `miscellaneous` as `else`, **every** list
 sorted ascending by `elt.attrib.get("name", "")`, concatenated as groups, simple types,
-complex types, elements, miscellaneous, the length assertion, `root[:] = children`; and
+complex types, elements, miscellaneous (the lists are numbered in this order, however they are
+declared), the length assertion, `root[:] = children`; and
 `_generate` calls it after the last mutation of the root and before serialising. -/
 theorem xsd_skeleton :
     Gen.SortSites.xsdLists = 5 ∧
-    Gen.SortSites.xsdTagChain = [(xsGroup, 0), (xsSimpleType, 1), (xsComplexType, 2), (xsElement, 4)] ∧
-    Gen.SortSites.xsdElseList = 3 ∧
+    Gen.SortSites.xsdTagChain = [(xsGroup, 0), (xsSimpleType, 1), (xsComplexType, 2), (xsElement, 3)] ∧
+    Gen.SortSites.xsdElseList = 4 ∧
     (∀ i ∈ Gen.SortSites.xsdConcat, i ∈ Gen.SortSites.xsdSortedLists) ∧
     Gen.SortSites.xsdSortKey = "e.attrib.get('name', '')" ∧
     Gen.SortSites.xsdSortReverse = false ∧
-    Gen.SortSites.xsdConcat = [0, 1, 2, 4, 3] ∧
+    Gen.SortSites.xsdConcat = [0, 1, 2, 3, 4] ∧
     Gen.SortSites.xsdAssertsLength = true ∧
     Gen.SortSites.xsdWritesBack = true ∧
     Gen.SortSites.xsdSortedBeforeSerialisation = true := by decide
